@@ -85,9 +85,14 @@ type c13Iface struct {
 	Wide16   bool       `json:"wide16"`  // IPv4 values in 16-byte form (as net.ParseIP yields)
 }
 
+// bandwidth limits (bytes/s, 0 = none) as the pod annotations / runtime config give them
+var c13Rates = []uint64{0, 0, 125000, 1250000, 125000000}
+
 type c13Pod struct {
 	Ifaces  []c13Iface `json:"ifaces"`
 	Default int        `json:"default"` // interface carrying the default route (mod len)
+	Ingress uint64     `json:"ingress"`
+	Egress  uint64     `json:"egress"`
 }
 
 type c13Scenario struct {
@@ -95,7 +100,8 @@ type c13Scenario struct {
 	V4        bool     `json:"v4"`
 	V6        bool     `json:"v6"`
 	Trunk     bool     `json:"trunk"`
-	NoENIGW   bool     `json:"no_eni_gw"` // not a trunk and the daemon sent no ENI gateway: ENIGatewayIP is nil
+	BWMode    string   `json:"bandwidth_mode"` // CNI conf: "", "tc" or "edt"
+	NoENIGW   bool     `json:"no_eni_gw"`      // not a trunk and the daemon sent no ENI gateway: ENIGatewayIP is nil
 	Vid       int      `json:"vid"`
 	MTU       int      `json:"mtu"`
 	ENIs      []c13ENI `json:"enis"`
@@ -150,6 +156,7 @@ func c13Gen(t *rapid.T) c13Scenario {
 	}
 	s.Trunk = rapid.Bool().Draw(t, "trunk")
 	s.NoENIGW = !s.Trunk && rapid.Bool().Draw(t, "noenigw")
+	s.BWMode = rapid.SampledFrom([]string{"", types.BandwidthModeTC, types.BandwidthModeEDT}).Draw(t, "bwmode")
 	s.Vid = rapid.IntRange(1, 4094).Draw(t, "vid")
 	s.MTU = rapid.SampledFrom([]int{1280, 1500, 8500, 9001}).Draw(t, "mtu")
 
@@ -164,6 +171,8 @@ func c13Gen(t *rapid.T) c13Scenario {
 		}
 		s.Pods[p].Ifaces = make([]c13Iface, nIf)
 		s.Pods[p].Default = rapid.IntRange(0, nIf-1).Draw(t, "default")
+		s.Pods[p].Ingress = rapid.SampledFrom(c13Rates).Draw(t, "ingress")
+		s.Pods[p].Egress = rapid.SampledFrom(c13Rates).Draw(t, "egress")
 		for i := 0; i < nIf; i++ {
 			slots = append(slots, slot{p, i})
 		}
@@ -360,6 +369,9 @@ func (s *c13Scenario) setupConfig(p, i int) *types.SetupConfig {
 		DefaultRoute:      ((pod.Default%len(pod.Ifaces))+len(pod.Ifaces))%len(pod.Ifaces) == i,
 		MultiNetwork:      len(pod.Ifaces) > 1,
 		DisableCreatePeer: f.NoPeer,
+		BandwidthMode:     s.BWMode,
+		Ingress:           pod.Ingress,
+		Egress:            pod.Egress,
 	}
 	switch s.DP {
 	case c13DPPolicy:
@@ -554,6 +566,12 @@ func c13RunOpt(c *vt.Ctx, s c13Scenario, noGuard bool) {
 	c.Label("family:" + fam)
 	if s.Trunk {
 		c.Label("trunk")
+	}
+	for _, p := range s.Pods {
+		if p.Ingress > 0 || p.Egress > 0 {
+			c.Label("bandwidth-limit")
+			break
+		}
 	}
 
 	// host namespace model: primary interface with the node's default routes, then the ENIs
